@@ -111,7 +111,7 @@ theorem imul_native_counterexample :
     pyMulNative #[] (.str ['a', 'b']) (.int 3) = .ok (.str ['a', 'b', 'a', 'b', 'a', 'b'], #[]) := by
   constructor
   · simp [pyMulNative, toInt?]
-  · simp [pyMulNative, toInt?, toDec?, boolInt, List.replicate]
+  · rfl
 
 theorem imul_is_native (s : BState) (cur v : Val) :
     pyInplace s .imul cur v = match cur with
